@@ -27,6 +27,8 @@ def pcm(pattern, sw=SW, ch=CH, spw=1):
                     v = (100 + (idx % 20)) if loud else (idx % 3)
                 else:
                     v = (20000 + idx % 9000 - k) if loud else (idx % 5)
+                if c == "z":
+                    v = 0  # digital silence
                 out.append(int(v).to_bytes(sw, "little", signed=True))
             idx += 1
     return b"".join(out)
@@ -51,6 +53,28 @@ def lib():
                 raise RuntimeError("observer failed (injected fault)")
 
         _L["Crash"] = Crash
+
+        class Ragged(util.AudioReader):
+            """A reader whose blocks have different lengths mid-stream (what a socket / pipe / device reader gives):
+            block k is the concatenation of sizes[k % len(sizes)] ordinary blocks."""
+
+            def __init__(self, data, sizes, **kw):
+                super().__init__(data, **kw)
+                self._sizes = list(sizes)
+                self._k = 0
+
+            def read(self):
+                n = self._sizes[self._k % len(self._sizes)]
+                self._k += 1
+                parts = []
+                for _ in range(n):
+                    b = super().read()
+                    if b is None:
+                        break
+                    parts.append(b)
+                return b"".join(parts) if parts else None
+
+        _L["Ragged"] = Ragged
 
         class Rec(w.Worker):
             """Recording observer."""
@@ -119,6 +143,8 @@ SPLIT_VARIANTS = {
     "s1": dict(min_dur=0.2, max_dur=0.3, max_silence=0.1),
     "s1d": dict(min_dur=0.1, max_dur=0.4, max_silence=0.1, drop_trailing_silence=True),
     "s2": dict(min_dur=0.1, max_dur=0.1, max_silence=0.0),  # every loud window is a detection
+    "s1s": dict(min_dur=0.2, max_dur=0.3, max_silence=0.0, strict_min_dur=True),  # remainders of a cut are dropped
+    "s1sd": dict(min_dur=0.2, max_dur=0.4, max_silence=0.2, strict_min_dur=True, drop_trailing_silence=True),
 }
 
 _expect_cache = {}
@@ -128,14 +154,16 @@ def cfg_sr(cfg):
     return cfg.get("sr", SR)
 
 
-def expected(data, skw_name, sw=SW, ch=CH, sr=SR, hop=None, extra=()):
+def expected(data, skw_name, sw=SW, ch=CH, sr=SR, hop=None, extra=(), ragged=None):
     """Sequential reference: what split() returns for these bytes."""
-    key = (data, skw_name, sw, ch, sr, hop, tuple(extra))
+    key = (data, skw_name, sw, ch, sr, hop, tuple(extra), tuple(ragged or ()))
     if key not in _expect_cache:
         L = lib()
         kw = dict(SPLIT_VARIANTS[skw_name])
         kw.update(dict(extra))
-        if hop:
+        if ragged:
+            regs = list(L["core"].split(L["Ragged"](data, ragged, block_dur=BLOCK, sr=sr, sw=sw, ch=ch), **kw))
+        elif hop:
             rd = L["util"].AudioReader(data, block_dur=BLOCK, hop_dur=hop, sr=sr, sw=sw, ch=ch)
             regs = list(L["core"].split(rd, **kw))
         else:
@@ -148,7 +176,7 @@ def expected(data, skw_name, sw=SW, ch=CH, sr=SR, hop=None, extra=()):
 
 def exp_for(cfg, data):
     return expected(data, cfg["split"], cfg.get("sw", SW), cfg.get("ch", CH), cfg_sr(cfg), cfg.get("hop"),
-                    tuple(sorted(cfg.get("split_extra", {}).items())))
+                    tuple(sorted(cfg.get("split_extra", {}).items())), cfg.get("ragged"))
 
 
 class Ctx:
@@ -179,14 +207,17 @@ def make_factory(cfg):
         ctx.stdout = io.StringIO()
         if kind == "cli":
             return make_cli(ctx, cfg, data, sw, ch)
-        inner = L["util"].AudioReader(data, block_dur=BLOCK, hop_dur=cfg.get("hop"), sr=sr, sw=sw, ch=ch)
+        if cfg.get("ragged"):
+            inner = L["Ragged"](data, cfg["ragged"], block_dur=BLOCK, sr=sr, sw=sw, ch=ch)
+        else:
+            inner = L["util"].AudioReader(data, block_dur=BLOCK, hop_dur=cfg.get("hop"), sr=sr, sw=sw, ch=ch)
         ctx.inner = LogReader(inner)
         ctx.inner.close_fault = bool(cfg.get("close_fault"))
         reader = ctx.inner
         ctx.saver = None
         ctx.outer = None
         if cfg.get("saver"):
-            ctx.saver_file = os.path.join(ctx.dir, "stream" if cfg.get("noext") else "stream.wav")
+            ctx.saver_file = os.path.join(ctx.dir, "stream" if cfg.get("noext") else cfg.get("saver_name", "stream.wav"))
             ctx.saver = w.StreamSaverWorker(ctx.inner, ctx.saver_file, cache_size_sec=cfg.get("cache", 0.5))
             ctx.outer = LogReader(ctx.saver)
             reader = ctx.outer
@@ -249,16 +280,24 @@ def make_factory(cfg):
             ctx.second = make_factory(c2)()[1]
 
         def main():
-            old = sys.stdout
+            old = ctx.real_stdout = sys.stdout
             sys.stdout = ctx.stdout
             try:
-                if ctx.saver is not None:
+                if ctx.saver is not None and not cfg.get("late_start"):
                     ctx.saver.start()
                 if ctx.second is not None:
                     if ctx.second.saver is not None:
                         ctx.second.saver.start()
                     ctx.second.tw.start_all()
-                ctx.tw.start_all()
+                if cfg.get("late_start"):
+                    # the producer is started before its consumers: messages wait in the inboxes meanwhile
+                    ctx.tw.start()
+                    for o in obs:
+                        o.start()
+                    if ctx.saver is not None:
+                        ctx.saver.start()
+                else:
+                    ctx.tw.start_all()
                 if ctx.second is not None:
                     ctx.second.tw.join()
                     for o in ctx.second.obs:
@@ -269,6 +308,11 @@ def make_factory(cfg):
                     ctx.tw.stop_all()
                     if ctx.saver is not None:
                         ctx.saver.join()
+                elif cfg.get("main_waits") == "tokenizer":
+                    # the caller waits for the tokenizer only and returns: the interpreter then waits for every
+                    # non-daemon thread, so the observers still finish their queues (stdout stays redirected)
+                    ctx.tw.join()
+                    return
                 else:
                     ctx.tw.join()
                     for o in obs:
@@ -276,7 +320,8 @@ def make_factory(cfg):
                     if ctx.saver is not None:
                         ctx.saver.join()
             finally:
-                sys.stdout = old
+                if not (kind == "run" and cfg.get("main_waits") == "tokenizer"):
+                    sys.stdout = old
 
         return main, ctx
 
@@ -334,6 +379,8 @@ def make_cli(ctx, cfg, data, sw, ch):
     argv += ["-n", str(kw["min_dur"]), "-m", str(kw["max_dur"]), "-s", str(kw["max_silence"])]
     if kw.get("drop_trailing_silence"):
         argv.append("-d")
+    if kw.get("strict_min_dur"):
+        argv.append("-R")
     for a in cfg["argv"]:
         argv.append(a.replace("<WD>", ctx.dir + "/"))
     ctx.saver_file = os.path.join(ctx.dir, "stream.raw" if any("stream.raw" in a for a in cfg["argv"]) else "stream.wav")
@@ -395,7 +442,13 @@ def cleanup(ctx):
     _cleanup1(ctx)
 
 
+def _restore_stdout(ctx):
+    if getattr(ctx, "real_stdout", None) is not None and sys.stdout is ctx.stdout:
+        sys.stdout = ctx.real_stdout
+
+
 def _cleanup1(ctx):
+    _restore_stdout(ctx)
     # close whatever an aborted execution left open, then drop the files
     # (their __del__ drains the inbox and flushes: leave it nothing to do)
     for x in [ctx.saver] + ctx.joiners:
@@ -431,13 +484,17 @@ def _short(ids):
 
 def check(ex, ctx):
     """The oracle for one finished execution; returns a complaint or None."""
+    _restore_stdout(ctx)
     cfg = ctx.cfg
     L = lib()
     sw = cfg.get("sw", SW)
     ch = cfg.get("ch", CH)
     sr = cfg_sr(cfg)
+    if ex.outcome == "exit-kills-daemon-threads":
+        return "the program's last non-daemon thread ended while %s still had work: as daemon threads they are killed at interpreter exit" % (
+            sorted(t.name for t in ex.th if t.started and not t.finished),)
     if ex.outcome != "done":
-        blocked = [(t.name, t.pending and t.pending[0]) for t in ex.th if t.started and not t.finished]
+        blocked = getattr(ex, "blocked", None) or [(t.name, t.pending and t.pending[0]) for t in ex.th if t.started and not t.finished]
         return "%s: threads never end: %s" % (ex.outcome, blocked)
     tolerate = cfg.get("tolerate_crash", ())
     for t in ex.th:
@@ -535,8 +592,28 @@ def check(ex, ctx):
         if extra:
             return "unexpected region files %r" % sorted(extra)
     if ctx.saver is not None:
+        path = ctx.saver_file
+        if cfg.get("saver_name") and not path.endswith((".wav", ".raw")):
+            # a format that needs an external encoder: where none can be run, export_audio() warns that the audio was
+            # kept as <name>.wav - that file is then the worker's product, and it is still there after the worker is gone
+            from auditok.exceptions import AudioEncodingWarning
+
+            try:
+                ctx.saver.export_audio()
+                return None  # an encoder is installed here: nothing this harness can read back
+            except AudioEncodingWarning:
+                pass
+            except Exception as exc:
+                return "export_audio() raised %r" % (exc,)
+            try:
+                type(ctx.saver).__del__(ctx.saver)  # what happens when the worker is released
+            except Exception:
+                pass
+            path = path + ".wav"
+            if not os.path.exists(path):
+                return "after the failed export the fallback file %s is gone: the saved stream exists nowhere" % os.path.basename(path)
         try:
-            sr_, sw_, ch_, frames = _read_saved(ctx.saver_file, sr, sw, ch)
+            sr_, sw_, ch_, frames = _read_saved(path, sr, sw, ch)
         except Exception as exc:
             return "saved stream is not a readable wav: %r" % (exc,)
         if (sr_, sw_, ch_) != (sr, sw, ch):
@@ -719,6 +796,17 @@ def plan(prop, tier):
         tasks.append((dict(kind="run", pattern="AaA", second="AAAA", observers=["rec"], split="s0"), 0, 0, "sync", None, None))
         for p in ("AaA", "AAAA"):
             tasks.append((dict(kind="run", pattern=p, observers=["play", "rec"], split="s2"), 1, 0, "sync", None, None))
+        # every split option reaches split() under its own name: exactly one / both of the two boolean modes
+        for sp, p in (("s1d", "AAaaA"), ("s1d", "AaA"), ("s1s", "AAAA"), ("s1s", "AAAAaA"), ("s1sd", "AAAAAaaA")):
+            tasks.append((dict(kind="run", pattern=p, observers=["rec"], split=sp), 0, 0, "sync", None, None))
+        # digital silence and thresholds at / below the -200 dB floor: the worker thread decides as split() does in the caller's thread
+        for thr in (-250, -200):
+            tasks.append((dict(kind="run", pattern="zAzzA", observers=["rec"], split="s0", split_extra={"energy_threshold": thr}), 0, 0, "sync", None, None))
+        # other legitimate ways of driving the threads: the producer started before its consumers; a caller that only
+        # waits for the tokenizer and returns (the interpreter then waits for the non-daemon threads)
+        for p in ("AaA", "AAAA"):
+            tasks.append((dict(kind="run", pattern=p, observers=["rec", "print"], split="s2", late_start=True), 1, 0, "sync", None, None))
+            tasks.append((dict(kind="run", pattern=p, observers=["rec", "print"], split="s2", main_waits="tokenizer"), 1, 0, "sync", None, None))
         # environment faults the other threads must survive: the reader fails when closed at the end of the stream;
         # a file-writing observer dies of a full disk at its k-th write; files of an earlier run already carry the names
         for p in ("", "AaA", "AAAA"):
@@ -738,6 +826,9 @@ def plan(prop, tier):
         # directed starvation schedules on a long stream (300 detections): capacity effects
         tasks.append((dict(kind="run", pattern="A" * 300, observers=["rec", "print"], split="s2"), 10 ** 6, 0, "directed", None, None))
         tasks.append((dict(kind="run", pattern="A" * 150, observers=["rec", "rec", "print"], split="s2"), 10 ** 6, 0, "directed", None, None))
+        # an observer that died on its first message must not hold up the others, however many detections follow
+        tasks.append((dict(kind="run", pattern="A" * 300, observers=["crash", "rec", "print"], split="s2"), 10 ** 6, 0, "directed", None, None))
+        tasks.append((dict(kind="run", pattern="AAAA", observers=["crash", "rec"], split="s2"), 1, 0, "sync", None, None))
         # line-level pass: the stand-in for a race detector
         for p in (["A", "AaA"] if quick else ["A", "AaA", "AAAA"]):
             tasks.append((dict(kind="run", pattern=p, observers=["rec"], split="s0"), 0, 0, "line", 1, None))
@@ -823,6 +914,15 @@ def plan(prop, tier):
         tasks.append((dict(base, pattern="AaA", observers=["regsave"], regsave_extra={"sr": 3 * SR, "sw": 1, "ch": 1}, sw=2, ch=2),
                       0, 0, "sync", None, None))
         tasks.append((dict(base, pattern="AAaA", observers=["regsave"], split="s2", preexisting=[1, 3]), 0, 0, "sync", None, None))
+        for p in ("AaA", "AAAA"):
+            tasks.append((dict(base, pattern=p, observers=["join", "regsave"], saver=True, cache=0.1, late_start=True), 0, 0, "sync", None, None))
+        # an output format that needs an external encoder (none can be run here): the audio is kept in the fallback wav
+        tasks.append((dict(base, pattern="AaA", observers=[], saver=True, cache=0.1, saver_name="stream.ogg"), 0, 0, "sync", None, None))
+        # a reader whose blocks differ in length mid-stream, cache sizes between the short and the long blocks
+        for sizes in ([1, 3], [1, 1, 3, 1, 2], [2, 1]):
+            for c in (0.15, 0.25, 0.1):
+                tasks.append((dict(base, pattern="AaAaAAaA" if quick else "AaAaAAaAaa", observers=[], saver=True, cache=c, ragged=sizes),
+                              0 if quick else 1, 0, "sync", None, None))
         # another audio format, another split setting
         for p in (["AaA"] if quick else ["AaA", "AAAA"]):
             for c in (0.1, 1000):
